@@ -789,18 +789,18 @@ FRAGSETS = ["open", "macrostat", "call", "eval", "str"]
 COVER_DIR = os.path.join(common.WORK, "cover")
 
 MC_CFG = """SPECIFICATION Spec
-VIEW View
+%(view)s
 CONSTRAINT Bounds
 INVARIANT %(invs)s
 %(props)s
 CONSTANTS
   FragSet = "%(fs)s"
-  MaxFrags = 1000
+  MaxFrags = %(maxfrags)d
   MaxStack = %(stack)d
   MaxCalls = %(calls)d
   MaxWindow = %(window)d
-  MaxSpec = 8
-  MaxToksSinceCk = 4
+  MaxSpec = %(spec)d
+  MaxToksSinceCk = %(tsc)d
   Emit1 = %(emit)s
   MacroSepOn = TRUE
 CHECK_DEADLOCK FALSE
@@ -809,11 +809,16 @@ DESIGN_INVS = ("NoFault NoInternalError CkptDiscipline CkptBelowStack TokensOrde
                "LitPartition DoneBalanced DoneErrPairs")
 
 
-def mc_run(workdir, name, fs, stack, window, emit, invs=DESIGN_INVS, progress=True, timeout=1800, workers=16, calls=9):
-    """One TLC run of spec/MC_SasLexer.tla.  Returns (stats, list of cover inputs)."""
+def mc_run(workdir, name, fs, stack, window, emit, invs=DESIGN_INVS, progress=True, timeout=1800, workers=16, calls=9,
+           r1_frags=None):
+    """One TLC run of spec/MC_SasLexer.tla.  Regime R2 (VIEW, any input length) by default; with r1_frags=N regime
+    R1: no view, all inputs of at most N fragments with their full history.  Returns (stats, list of cover inputs)."""
     import re
+    r1 = r1_frags is not None
     cfg = MC_CFG % dict(invs=invs + (" CoverAll" if emit else ""), props="PROPERTY Progress" if progress else "",
-                        fs=fs, stack=stack, window=window, calls=calls, emit="TRUE" if emit else "FALSE")
+                        view="" if r1 else "VIEW View", maxfrags=r1_frags if r1 else 1000,
+                        spec=80 if r1 else 8, tsc=40 if r1 else 4,
+                        fs=fs, stack=stack, window=9 if r1 else window, calls=calls, emit="TRUE" if emit else "FALSE")
     rc, out, wall = common.tlc("MC_SasLexer", cfg, workdir, name, workers=workers, timeout=timeout, heap="16g")
     if "Model checking completed. No error has been found." not in out:
         m = re.search(r"(Invariant \w+ is violated|Temporal properties were violated|Error: .*)", out)
@@ -826,7 +831,8 @@ def mc_run(workdir, name, fs, stack, window, emit, invs=DESIGN_INVS, progress=Tr
             if m:
                 j = json.loads(json.loads(m.group(1)))
                 inputs.append("".join(CLASS_CHAR.get(k, c) if k else c for c, k in zip(j["cs"], j["cc"])))
-    return {"fragset": fs, "max_stack": stack, "max_open_calls": calls, "window_fragments": window, "states": st["states"],
+    return {"regime": "R1 (all inputs <= %d fragments, full history)" % r1_frags if r1 else "R2 (view: configuration + window)",
+            "fragset": fs, "max_stack": stack, "max_open_calls": calls, "window_fragments": window, "states": st["states"],
             "distinct": st["distinct"], "wall_s": round(wall, 1)}, inputs
 
 
@@ -885,8 +891,16 @@ def design_mc(ctx):
         runs.append(st)
         ctx.states += st["distinct"]
         ctx.transitions += st["states"]
-        log("[mc] %s stack<=%d calls<=%d window<=%d: %d distinct states, %d generated, %.0fs, invariants hold" % (
+        log("[mc] R2 %s stack<=%d calls<=%d window<=%d: %d distinct states, %d generated, %.0fs, invariants hold" % (
             fs, stack, calls, window, st["distinct"], st["states"], st["wall_s"]))
+    for fs, n in ([("str", 3), ("call", 3)] if ctx.quick() else [(f, 4) for f in FRAGSETS]):
+        st, _ = mc_run(ctx.dir, "r1-%s" % fs, fs, 40, 9, False, calls=9, r1_frags=n,
+                       invs=DESIGN_INVS.replace("CkptDiscipline ", ""))
+        runs.append(st)
+        ctx.states += st["distinct"]
+        ctx.transitions += st["states"]
+        log("[mc] R1 %s all inputs of <= %d fragments: %d distinct states, %.0fs, invariants hold" % (
+            fs, n, st["distinct"], st["wall_s"]))
     ctx.extra["design_model_checking"] = {"module": "spec/MC_SasLexer.tla", "invariants": DESIGN_INVS.split() + ["Progress"],
                                           "runs": runs}
 
